@@ -60,15 +60,26 @@ func (c *simChain) mkBad(kind string, parentSel, a, b int64) *node {
 	}
 	// an even parentSel builds on a parent the light client already holds (the fault then
 	// fires at once); an odd one on any generated parent (the parent may arrive later or never)
-	if parentSel%2 == 0 && len(storedCands) > 0 {
-		cands = storedCands
+	// a negative parentSel addresses the applicable parents from the OLDEST on (-1 = the first,
+	// normally the trust root, -2 = its first descendant, ...): used to place faults right
+	// behind the trust root
+	var p *node
+	if parentSel < 0 {
+		if len(cands) == 0 {
+			return c.addNoop(kind)
+		}
+		p = cands[mod(-(parentSel+1), len(cands))]
+	} else {
+		if parentSel%2 == 0 && len(storedCands) > 0 {
+			cands = storedCands
+		}
+		parentSel /= 2
+		if len(cands) == 0 {
+			return c.addNoop(kind)
+		}
+		// prefer parents near the tips: parentSel counts from the newest candidate
+		p = cands[len(cands)-1-mod(parentSel, len(cands))]
 	}
-	parentSel /= 2
-	if len(cands) == 0 {
-		return c.addNoop(kind)
-	}
-	// prefer parents near the tips: parentSel counts from the newest candidate
-	p := cands[len(cands)-1-mod(parentSel, len(cands))]
 	salt := len(c.nodes)
 	d := c.draft(p, a, 0, salt)
 	if d == nil {
@@ -104,6 +115,8 @@ func (c *simChain) mkBad(kind string, parentSel, a, b int64) *node {
 		setCoinbase(signer)
 		h.Difficulty = big.NewInt(1 + int64(mod(b/16, 4)/3))
 	case "recent_signer":
+		// pool[i] sealed the block i+1 behind the new header (pool order = distance order, the
+		// trust root's sealer included when the window reaches back to it); b picks the distance
 		var pool []ecommon.Address
 		for _, r := range c.recentSealers(p, len(set)/2) {
 			if contains(set, r) {
